@@ -337,6 +337,9 @@ func runC05(c *Check, w *World) {
 	}
 	ruleSuiteAdmission(c, w, tb)
 	ruleConstructorIdentity(c, w, tb, "R05.4")
+	// registered names: each registry entry is the configuration its name denotes (so the code for a registered
+	// name is the code of that suite)
+	ruleRegistryFidelity(c, w, "R05.6")
 	// contract facts for the table indices
 	iv.Assume[fld("Digits", CFG)] = Itv{bi(4), bi(10)}
 	iv.Assume[fld("Hash", CFG)] = Itv{bi(0), bi(2)}
